@@ -1,6 +1,7 @@
 package props
 
 import (
+	"crypto/ed25519"
 	"fmt"
 	"math/big"
 	"sort"
@@ -8,6 +9,9 @@ import (
 
 	ethcmn "github.com/ethereum/go-ethereum/common"
 	ethtypes "github.com/ethereum/go-ethereum/core/types"
+	ethcrypto "github.com/ethereum/go-ethereum/crypto"
+	tmed "github.com/tendermint/tendermint/crypto/ed25519"
+	tmsecp "github.com/tendermint/tendermint/crypto/secp256k1"
 	dbm "github.com/tendermint/tm-db"
 
 	"github.com/Oneledger/protocol/action"
@@ -91,15 +95,50 @@ func VerifiedSigners(tx *action.SignedTx, chainID string) []keys.Address {
 	}
 	msg := tx.RawBytes()
 	for _, s := range tx.Signatures {
-		h, err := s.Signer.GetHandler()
-		if err != nil {
-			continue
-		}
-		if h.VerifyBytes(msg, s.Signed) {
-			out = append(out, h.Address())
+		if a := verifySig(s.Signer, msg, s.Signed); a != nil {
+			out = append(out, a)
 		}
 	}
 	return out
+}
+
+// verifySig is the harness's own signature check (the cryptographic libraries directly, none of the
+// repository's key code): the address the key controls if the signature verifies, else nil. A key whose
+// encoding is not exactly that of its algorithm controls nothing, and so does the bitcoin key type (no
+// account address is derived from it).
+func verifySig(pk keys.PublicKey, msg, sig []byte) keys.Address {
+	switch pk.KeyType {
+	case keys.ED25519:
+		if len(pk.Data) != ed25519.PublicKeySize || len(sig) != ed25519.SignatureSize {
+			return nil
+		}
+		if !ed25519.Verify(ed25519.PublicKey(pk.Data), msg, sig) {
+			return nil
+		}
+		var k tmed.PubKeyEd25519
+		copy(k[:], pk.Data)
+		return keys.Address(k.Address().Bytes())
+	case keys.SECP256K1:
+		if len(pk.Data) != tmsecp.PubKeySecp256k1Size {
+			return nil
+		}
+		var k tmsecp.PubKeySecp256k1
+		copy(k[:], pk.Data)
+		if !k.VerifyBytes(msg, sig) {
+			return nil
+		}
+		return keys.Address(k.Address().Bytes())
+	case keys.ETHSECP:
+		if len(msg) != 32 || len(pk.Data) != 33 || (len(sig) != 64 && len(sig) != 65) {
+			return nil // go-ethereum verifies 32-byte digests only: such a key cannot sign a native transaction
+		}
+		pub, err := ethcrypto.DecompressPubkey(pk.Data)
+		if err != nil || !ethcrypto.VerifySignature(pk.Data, msg, sig[:64]) {
+			return nil
+		}
+		return keys.Address(ethcrypto.PubkeyToAddress(*pub).Bytes())
+	}
+	return nil
 }
 
 func olvmSender(stx *action.SignedTx, chainID string) (addr keys.Address) {
